@@ -23,7 +23,11 @@ type c19Config struct {
 	Auth   bool   // cleartext auth
 	Hook   string // absent | ok | error
 	NilCtx bool   // the failing middleware returns (nil, err) instead of (ctx, err)
-	Remote string // "" = the in-memory address; otherwise the kind of net.Addr the transport reports (c19Remotes)
+	// DeriveCtx: the password validator returns a context derived from the one it was given (a value attached);
+	// CloseErr: the transport's Close reports an error (the connection is closed all the same)
+	DeriveCtx bool
+	CloseErr  bool
+	Remote    string // "" = the in-memory address; otherwise the kind of net.Addr the transport reports (c19Remotes)
 }
 
 // c19Remotes: remote addresses as real listeners report them.
@@ -37,6 +41,9 @@ var c19Remotes = map[string]net.Addr{
 }
 
 func (c c19Config) String() string {
+	if c.DeriveCtx || c.CloseErr {
+		return fmt.Sprintf("middlewares=%d auth=%v terminate_hook=%s validator_derives_a_context=%v transport_close_reports_an_error=%v", c.M, c.Auth, c.Hook, c.DeriveCtx, c.CloseErr)
+	}
 	if c.Remote != "" {
 		return fmt.Sprintf("middlewares=%d auth=%v terminate_hook=%s remote_address=%s (%v)", c.M, c.Auth, c.Hook, c.Remote, c19Remotes[c.Remote])
 	}
@@ -68,6 +75,8 @@ func c19Letters() []c19Letter {
 
 type mwKey int
 
+type authKey struct{}
+
 type c19State struct {
 	cfg       c19Config
 	conn      *memnet.Conn
@@ -84,6 +93,11 @@ func (s *c19State) checkCtx(ctx context.Context, where string) {
 	for i := 1; i <= s.cfg.M; i++ {
 		if v, _ := ctx.Value(mwKey(i)).(string); v != fmt.Sprintf("set-by-mw%d", i) {
 			s.problems = append(s.problems, fmt.Sprintf("%s: context lacks the value added by middleware %d", where, i))
+		}
+	}
+	if s.cfg.DeriveCtx && s.cfg.Auth {
+		if v, _ := ctx.Value(authKey{}).(string); v != "attached by the validator for alice" {
+			s.problems = append(s.problems, fmt.Sprintf("%s: the value the password validator attached to its context is %q here", where, v))
 		}
 	}
 	if cp := wire.ClientParameters(ctx); cp == nil || cp["user"] != "alice" {
@@ -160,6 +174,10 @@ func c19Build(cfg c19Config, st *c19State, rec *script.Rec) (wire.ParseFn, []wir
 	}
 	if cfg.Auth {
 		opts = append(opts, wire.SessionAuthStrategy(wire.ClearTextPassword(func(ctx context.Context, db, u, pw string) (context.Context, bool, error) {
+			if cfg.DeriveCtx {
+				// a validator that attaches what it learned about the user to the context it hands back
+				return context.WithValue(ctx, authKey{}, "attached by the validator for "+u), true, nil
+			}
 			return ctx, true, nil
 		})))
 	}
@@ -192,6 +210,9 @@ func c19RunFault(cfg c19Config, hist []c19Letter, k int) explore.Result {
 	}
 	mc := memnet.NewConn("mem:client1")
 	mc.RemoteOverride = c19Remotes[cfg.Remote]
+	if cfg.CloseErr {
+		mc.CloseErr = errors.New("close: the peer has gone, the closing alert could not be delivered")
+	}
 	st.conn = mc
 	rec.Conn = mc
 	one := &harness.One{Server: srv, Conn: srv.ConnectWith(mc)}
@@ -239,6 +260,9 @@ func c19Run(cfg c19Config, hist []c19Letter, oneSegment bool) explore.Result {
 	}
 	mc := memnet.NewConn("mem:client1")
 	mc.RemoteOverride = c19Remotes[cfg.Remote]
+	if cfg.CloseErr {
+		mc.CloseErr = errors.New("close: the peer has gone, the closing alert could not be delivered")
+	}
 	st.conn = mc
 	rec.Conn = mc
 	one := &harness.One{Server: srv, Conn: srv.ConnectWith(mc)}
@@ -738,6 +762,26 @@ func c19Enumerate(tier string, emit explore.Emit) {
 					Run: func() explore.Result { return c19RunFault(cfg, hist, k) }})
 			}
 		})
+	}
+	// a validator that hands back a derived context; a transport whose Close reports an error
+	for _, v := range [][2]bool{{true, false}, {false, true}, {true, true}} {
+		for _, m := range []int{0, 2} {
+			for _, hook := range []string{"ok", "error"} {
+				cfg := c19Config{M: m, Auth: true, Hook: hook, DeriveCtx: v[0], CloseErr: v[1]}
+				forShapes(len(letters), 2, func(sh []int) {
+					hist := make([]c19Letter, len(sh))
+					for i, s := range sh {
+						hist[i] = letters[s]
+						if i > 0 && hist[i-1].Name == "EOF" {
+							return
+						}
+					}
+					emit(explore.Case{Family: "lifecycle", Size: 2 + len(hist),
+						Desc: func() any { return map[string]any{"config": cfg.String(), "history": c19Names(hist)} },
+						Run:  func() explore.Result { return c19Run(cfg, hist, false) }})
+				})
+			}
+		}
 	}
 	// the remote address the transport reports (IPv4, IPv6, zoned, unix socket) is the one every callback finds
 	for _, remote := range []string{"tcp4", "tcp4 in 16 bytes", "tcp6", "tcp6 loopback", "tcp6 with zone", "unix"} {
